@@ -643,6 +643,18 @@ def odd_inputs_pass(rng, rec):
         seq = [{"id": nid + 900 + j, "op": "GET", "keys": [first + j], "dt": 10**9} for j in range(len(keys) - first)]
         seq.append({"id": nid + 950, "op": "GET", "keys": [first, first + 1], "dt": 10**9})
         rec["ops"] = rec["ops"] + seq
+    # (e) round 22: ambient logging level DEBUG; the class of the OSError a failing validator raises; a size limit given
+    # as the int 0 (drawn always, in this order, so that later additions do not move them)
+    r1, r2, r3 = rng.random(), rng.random(), rng.random()
+    if r1 < 0.15:
+        knobs["log_debug"] = True
+    if r2 < 0.4:
+        knobs["val_ioerror_class"] = ["fnf", "perm", "timeout", "isdir"][int(r2 * 10) % 4]
+    if r3 < 0.04 and rec["property"] == "C18" and not knobs.get("mass_eviction") and not knobs.get("sparse_writer") \
+            and not any(o["op"] in ("REOPEN", "EDIT_CONFIG") for o in rec["ops"]):
+        knobs["size_arg_int_zero"] = True
+        knobs["max_bytes"] = 0
+        knobs["size_class"] = "zero-int"
     if rec["property"] == "C19" and rng.random() < 0.08:
         # (c) downloads and post-processors that fail with an exception deriving from Warning (a numpy/xarray
         # warning in a process run with -W error)
